@@ -153,6 +153,16 @@ func zzH_cfgJSON() {
 		o := cs.zero()
 		verifAssert(cs.unm(o, q) != nil, "UnmarshalJSON accepts a document with an unknown Type [C20]")
 	}
+	// a second document parsed after the first one must not see anything of it (no state kept between calls)
+	z := cs.zero()
+	pz, err := json.Marshal(z)
+	if err == nil {
+		c4, err := ParseJSON(pz)
+		verifAssert(err == nil && c4 != nil, "ParseJSON rejects the document of a zero configuration [C20]")
+		if err == nil && c4 != nil {
+			zzSameCfg(cs, z, c4, "ParseJSON(Marshal(zero cfg)) after another document")
+		}
+	}
 	verifReach("end")
 }
 
